@@ -3,6 +3,7 @@ use crate::run::Builder;
 pub mod mutex;
 pub mod sem;
 pub mod reuse;
+pub mod timers;
 pub mod queue;
 pub mod cancelmix;
 pub mod park;
@@ -19,6 +20,7 @@ pub fn lookup(name: &str) -> Option<Builder> {
         "sem" => Some(sem::build),
         "reuse" => Some(reuse::build),
         "cls" => Some(reuse::build_cls),
+        "timers" => Some(timers::build),
         "queue" => Some(queue::build),
         "cancelmix" => Some(cancelmix::build),
         "park" => Some(park::build),
